@@ -276,6 +276,10 @@ func (x *G) flow(depth int, inForm bool) []*Node {
 			// transparent and custom elements around a paragraph: their end tags do not close the p
 			x.Feats["p-in-slot-or-custom-element"]++
 			box := &Node{Tag: x.pick("boxtag", []string{"slot", "my-el", "x-box", "ins", "del"}), Kids: []*Node{{Tag: "p", Kids: x.phrasing(depth-1, false)}}}
+			if strings.Contains(box.Tag, "-") && x.chance("customattrs", 2) {
+				// names that are boolean attributes elsewhere carry values here
+				box.Attrs = [][2]string{{x.pick("customattr", []string{"selected", "open", "loop", "default", "required"}), x.pick("customattrv", []string{"2", "left", "x y", "false"})}}
+			}
 			out = append(out, box, x.text())
 		default:
 			tag := x.pick("btag", blockTags)
